@@ -133,12 +133,58 @@ def history_prog(rng):
     return " ".join(lines)
 
 
+VIEW_VALUES = ["0", "-0", "1", "7", "255", "256", "-1", "1.5", "NaN", "65536", "2147483648", "-129", "3.14", "Infinity", "'5'", "true", "undefined", "null"]
+
+
+def view_history(rng):
+    """Several views (constructed on the buffer with offsets/lengths, subarrays, subarrays of subarrays) over ONE buffer, then a
+    random sequence of stores through any of them - with few distinct values, so that a view is often asked to store what it
+    stored before while another view has changed the bytes in between - and a snapshot of every view after every step."""
+    size = rng.choice([8, 16, 24])
+    lines = ["var buf = new ArrayBuffer(%d); var V = []; var H = [];" % size,
+             "function SNAP() { var o = []; for (var i = 0; i < V.length; i++) { o.push(V[i].join(',')); } H.push(o.join('|')); }"]
+    n = 0
+    for _ in range(rng.randint(2, 5)):
+        k = rng.random()
+        if k < 0.5 or n == 0:
+            t = rng.choice(TYPED)
+            bpe = {"Int8Array": 1, "Uint8Array": 1, "Uint8ClampedArray": 1, "Int16Array": 2, "Uint16Array": 2, "Int32Array": 4, "Uint32Array": 4, "Float32Array": 4, "Float64Array": 8}[t]
+            off = rng.randrange(0, size // bpe) * bpe if rng.random() < 0.5 else 0
+            maxlen = (size - off) // bpe
+            if rng.random() < 0.5 and maxlen >= 1:
+                lines.append("V.push(new %s(buf, %d, %d));" % (t, off, rng.randint(1, maxlen)))
+            elif off:
+                lines.append("V.push(new %s(buf, %d));" % (t, off))
+            else:
+                lines.append("V.push(new %s(buf));" % t)
+        else:
+            src = rng.randrange(n)
+            a, b2 = rng.randint(0, 4), rng.randint(0, 8)
+            lines.append("V.push(V[%d].subarray(%d, %d));" % (src, min(a, b2), max(a, b2)) if rng.random() < 0.7 else "V.push(V[%d].subarray(%d));" % (src, a))
+        n += 1
+    lines.append("SNAP();")
+    pool = rng.sample(VIEW_VALUES, 4)
+    for _ in range(rng.randint(6, 16)):
+        v = rng.randrange(n)
+        k = rng.random()
+        if k < 0.8:
+            lines.append("V[%d][%d] = %s; SNAP();" % (v, rng.randint(0, 5), rng.choice(pool)))
+        elif k < 0.9:
+            lines.append("try { V[%d].set([%s, %s], %d); } catch (e) { H.push(e.name); } SNAP();" % (v, rng.choice(pool), rng.choice(pool), rng.randint(0, 2)))
+        else:
+            lines.append("try { V[%d].set(V[%d]); } catch (e) { H.push(e.name); } SNAP();" % (v, rng.randrange(n)))
+    lines.append("H")
+    return "\n".join(lines)
+
+
 def main(ctx):
     rng = random.Random(ctx.seed)
     fixed = random.Random(1717)
     if not have_node():
         ctx.inconclusive_because("reference_unavailable: node missing (stricter-mode model still runs)")
     progs = grid(fixed) + typed_progs()
+    for i in range(400 if ctx.quick else 8000):
+        progs.append(("view-history", view_history(fixed if i % 2 == 0 else rng)))
     for i in range(400 if ctx.quick else 15000):
         progs.append(("history", history_prog(fixed if i % 2 == 0 else rng)))
     ep = engine_pool()
